@@ -20,11 +20,19 @@ def still_fails(program, signature, check):
     return signature in _sigs(res), res
 
 
-def shrink(program, first_res, signature, check, budget_s=60.0, log=None):
+def shrink(program, first_res, signature, check, budget_s=60.0, log=None, violation=None):
     t0 = time.time()
     best = copy.deepcopy(program)
+    if violation is not None and hasattr(check, "narrow"):
+        for cand in check.narrow(best, violation):
+            ok, _ = still_fails(cand, signature, check)
+            if ok:
+                best = cand
+                break
     if first_res.get("schedule") is not None and best.get("schedule") is None:
         best["schedule"] = first_res["schedule"]  # freeze the schedule: replay is literal from now on
+        if first_res.get("twin_schedule") is not None and "twin" in best:
+            best["twin"]["schedule"] = first_res["twin_schedule"]
         ok, r = still_fails(best, signature, check)
         if not ok:
             # literal schedule did not reproduce (should not happen); keep the seeded program
